@@ -83,8 +83,9 @@ def parse_inputbox(tokens, xopts):
 
     for token in tokens:
         if token.tagname == "inputbox":
-            token.inputbox = Token.join_as_text(token.children)
-            del token.children[:]
+            # a self-closing <inputbox/> has no children at all
+            token.inputbox = Token.join_as_text(token.children or [])
+            token.children = []
 
 
 def create(current, tokens, sections, index):
